@@ -93,6 +93,10 @@ def bijection(r, labels):
     # distinct names, some differing only in surrounding whitespace
     names = [("Z%d" % (i // 3)) + ["", " ", "  x"][i % 3] if i % 3 != 2
              else " Z%d" % (i // 3) for i in range(len(classes))]
+    if r.random() < 0.4:
+        # names much longer than the originals (and than the library's own
+        # '__T_MIN' / '__T_MAX' padding labels)
+        names = ["a_rather_long_section_name_%d" % i for i in range(len(classes))]
     r.shuffle(names)
     m = dict(zip(classes, names))
     return [m[str(s).lower()] for s in labels]
@@ -223,6 +227,16 @@ def instances(r):
         if fn == "nce":
             kw["marginal"] = r.random() < 0.5
         out.append(pair("relabel", "segment." + fn, a4, b4, kw, "label bijection", nts))
+    # ... through evaluate(), where the estimate is padded / cropped to the
+    # reference span with the library's own filler labels
+    se = tasks.gen_segment_eval(r)
+    ea = (se["ref_iv"], se["ref_lab"], se["est_iv"], se["est_lab"])
+    eb = (se["ref_iv"], bijection(r, se["ref_lab"]), se["est_iv"],
+          bijection(r, se["est_lab"]))
+    out.append(pair("relabel", "segment.evaluate", ea, eb, {"frame_size": fs},
+                    "label bijection (%s)" % se["cls"],
+                    ("seg-eval", se["ref_iv"], tuple(se["ref_lab"]), se["est_iv"],
+                     tuple(se["est_lab"]), fs) if len(se["ref_iv"]) >= 3 else None))
     h = tasks.gen_hierarchy(r)
     hl = [bijection(r, l) for l in h["ref_labs"]]
     he = [bijection(r, l) for l in h["est_labs"]]
